@@ -70,6 +70,9 @@ func (st *State) callBuiltin(f *Frame, instr *ssa.Call, bi *ssa.Builtin, args []
 		es := e.sizeof(under(argT(0)).(*types.Slice).Elem())
 		n := c.Ite(c.Slt(dst.Len, sl), dst.Len, sl)
 		nn := st.concInt(n, "copy length")
+		if nn < 0 {
+			st.end(OutOOB, "copy with a negative slice length (forged slice header)")
+		}
 		if nn > 0 && es > 0 {
 			st.copyMem(dst.P, sp, nn*es)
 		}
@@ -167,6 +170,10 @@ func (st *State) doAppend(s Slice, add Value, st0, at types.Type) Value {
 		st.unsupported("append of %T", add)
 	}
 	es := e.sizeof(under(st0).(*types.Slice).Elem())
+	if st.decide(c.Slt(al, e.k64(0))) {
+		// a forged slice header with negative length: the runtime's growslice panics
+		st.goPanic("runtime error: growslice: len out of range")
+	}
 	n := st.concInt(al, "append length")
 	if n == 0 {
 		return s
@@ -229,6 +236,9 @@ func (st *State) snapshotKey(k Value) Value {
 
 func (st *State) mapFind(m *mapData, key Value) int {
 	kt := m.typ.Key()
+	if iv, ok := key.(Iface); ok && iv.Dyn != nil && !types.Comparable(iv.Dyn) {
+		st.goPanic("runtime error: hash of unhashable type " + iv.Dyn.String())
+	}
 	for i := range m.entries {
 		eq := st.valueEq(m.entries[i].key, key, kt)
 		if st.decide(eq) {
